@@ -419,8 +419,9 @@ theorem upTo_step_none {n : Net} {tm : Timing} {lo t : Nat}
 theorem upTo_step_some {n : Net} {tm : Timing} {lo t : Nat} {p : Probe} (hlo : lo ≤ t)
     (h : probeAt n .tcpSyn id tm t = some p) (hp : p.ttl = t) :
     serialWrite (upTo n tm lo t) p = upTo n tm lo (t + 1) := by
+  rw [serialWrite_empty (by simp [upTo, hp])]
   funext u
-  unfold serialWrite upTo
+  unfold upTo
   by_cases hu : u = t
   · subst hu; simp [hp, h, hlo]
   · have : (u < t + 1) = (u < t) := by apply propext; omega
